@@ -107,6 +107,9 @@ _ABS_STUB = ('np.abs of a symbolic complex -> lazy magnitude (this check): '
              'sqrt atom s >= 0, s^2 = |z|^2')
 
 
+_TOL = Fraction(1, 10**12)
+
+
 def _concretely(ctx, f):
     """run f() with the symbolic context switched off (real numpy)"""
     ctx.__exit__(None, None, None)
@@ -427,6 +430,147 @@ class DetectAnyTable(Harness):
 
 
 # ---------------------------------------------------------------------------
+class DetectRotated(Harness):
+    """Modulator.demodulate on the PSK table rotated by a SYMBOLIC unit
+    phasor (= any phase offset)."""
+    name = 'detect-any-offset'
+    modules = (FU, )
+    builtins = {'np': MYNP}
+    reach = 'concrete'
+    functions = (FU + ':Modulator.demodulate',
+                 FU + ':Modulator.setConstellation', FU + ':PSK.__init__',
+                 FU + ':PSK._createConstellation')
+    bounds = ('table = symbols of the real PSK(M) (offset 0; exact rationals '
+              'of its doubles) times u + jv with u, v symbolic reals, u^2 + '
+              'v^2 = 1; M in {2,4,8,16} (quick) + 32 (thorough); one '
+              'symbolic sample')
+    stubs = (_ABS_STUB, )
+    assumptions = tuple(ASSUMPTIONS) + (
+        'PSK(M, phi).symbols is PSK(M, 0).symbols rotated by exp(j phi) '
+        '(checked on the real constructor for seeded offsets within 1e-14 in '
+        'the concrete runs; the constructor itself runs with a symbolic '
+        'offset only in the psk-energy-any-offset harness)', )
+    outside = ('M > 32 with a symbolic offset', )
+    unit_wall_s = {'quick': 240, 'thorough': 1500}
+
+    def configs(self, tier):
+        return [dict(M=M) for M in ((2, 4, 8, 16) if tier == 'quick' else
+                                    (2, 4, 8, 16, 32))]
+
+    def sym(self, ctx, cfg):
+        fu = repo_module(FU)
+        M = cfg['M']
+        tab0 = _concretely(ctx, lambda: _table(fu.PSK(M)))
+        full = ctx.timeout_ms
+        ctx.timeout_ms = 300          # bilinear feasibility queries: an
+        ctx.solver.set('timeout', 300)  # undecided branch is explored
+        u = ctx.real('u', lo=-1, hi=1)
+        v = ctx.real('v', lo=-1, hi=1)
+        ctx.assume(u * u + v * v == 1, 'unit phasor')
+        rot = SComplex(u, v)
+        cs = [SComplex(c) * rot for c in tab0]
+        m = fu.Modulator()
+        m.setConstellation(_fill((M, ), cs))
+        r = ctx.cplx('r0')
+        out = m.demodulate(_fill((1, ), [r]))
+        k = int(out[0])
+        dk = (cs[k] - r).abs2()
+        ctx.prove('nearest', And(*[dk <= (c - r).abs2() for c in cs]),
+                  timeout_ms=full)
+
+    def replay(self, cfg, name, model):
+        fu = repo_module(FU)
+        mf = model_floats(model)
+        M = cfg['M']
+        rot = complex(float(mf.get('u', 1)), float(mf.get('v', 0)))
+        rot = rot / abs(rot) if rot else 1.0
+        phi = float(np.angle(rot))
+        m = fu.PSK(M, phi)
+        tab = _table(m)
+        r = complex(float(mf.get('r0_re', 0)), float(mf.get('r0_im', 0)))
+        k = int(m.demodulate(np.array([r]))[0])
+        return dict(reproduced=bool(_not_nearest(tab, r, k)),
+                    key='C01/Modulator.demodulate/not-nearest:PSK',
+                    detail=dict(M=M, offset=phi, sample=r, returned=k))
+
+    def concrete(self, cfg, rng):
+        fu = repo_module(FU)
+        M = cfg['M']
+        base = fu.PSK(M).symbols
+        cnt = 0
+        for _ in range(20):
+            phi = rng.uniform(-7, 7)
+            m = fu.PSK(M, phi)
+            assert np.allclose(m.symbols, base * np.exp(1j * phi), rtol=0,
+                               atol=1e-14), (M, phi)
+            tab = _table(m)
+            rs = [complex(rng.uniform(-2, 2), rng.uniform(-2, 2))
+                  for _ in range(8)]
+            for r, k in zip(rs, m.demodulate(np.array(rs))):
+                assert not _not_nearest(tab, r, int(k)), (M, phi, r, k)
+            cnt += 1
+        return cnt
+
+
+class PskEnergyAnyOffset(Harness):
+    """real PSK._createConstellation with a SYMBOLIC phase offset: every
+    point has unit energy (1e-12) on every path of the 1e-15 clamp."""
+    name = 'psk-energy-any-offset'
+    modules = (FU, )
+    builtins = False
+    functions = (FU + ':PSK._createConstellation', )
+    bounds = ('M in {2, 4}; phase offset a symbolic real in [-7, 7]; all 3^M '
+              'outcomes of the clamp `x[abs(x) < 1e-15] = 0`')
+    stubs = ('np.cos/np.sin -> uninterpreted functions with cos^2 + sin^2 = '
+             '1 and range [-1,1]', 'abs on a symbolic real -> defined atom')
+    outside = ('M >= 8 with a symbolic offset (3^M clamp paths); distinctness '
+               'of the points for a symbolic offset (needs the angle-addition '
+               'theorem; decided for literal offsets by the table harness)', )
+
+    def configs(self, tier):
+        return [dict(M=2), dict(M=4)]
+
+    def sym(self, ctx, cfg):
+        fu = repo_module(FU)
+        M = cfg['M']
+        ctx.abs_mode = 'atom'
+        phi = ctx.real('phi', lo=-7, hi=7)
+        c = fu.PSK._createConstellation(M, phi)
+        if not (isinstance(c, np.ndarray) and c.shape == (M, )):
+            ctx.record('shape', 'sat', 'structural',
+                       model=ctx.witness() or {})
+            return
+        es = [(x if isinstance(x, SComplex) else SComplex(x)).abs2()
+              for x in c]
+        ctx.prove('every-point-unit-energy',
+                  And(*[And(e <= 1 + _TOL, e >= 1 - _TOL) for e in es]))
+
+    def replay(self, cfg, name, model):
+        fu = repo_module(FU)
+        M = cfg['M']
+        phis = [float(model_floats(model).get('phi', 0.0))] + [
+            -7 + 14 * i / 400.0 for i in range(401)]
+        for phi in phis:
+            c = fu.PSK._createConstellation(M, phi)
+            e = np.abs(c)**2
+            if c.shape != (M, ) or np.any(np.abs(e - 1) > 1e-12):
+                return dict(reproduced=True,
+                            key='C01/PSK._createConstellation/'
+                            'point-off-unit-circle',
+                            detail=dict(M=M, offset=phi, energies=e.tolist()))
+        return dict(reproduced=False, key=None,
+                    detail='unit energy at the model point and on a grid')
+
+    def concrete(self, cfg, rng):
+        fu = repo_module(FU)
+        for _ in range(50):
+            phi = rng.uniform(-7, 7)
+            c = fu.PSK._createConstellation(cfg['M'], phi)
+            assert np.all(np.abs(np.abs(c)**2 - 1) < 1e-12)
+        return 50
+
+
+# ---------------------------------------------------------------------------
 class RoundTrip(Harness):
     """demodulate(modulate(l)) == l for a symbolic label."""
     name = 'roundtrip'
@@ -577,9 +721,6 @@ def _mux_real(vals, index):
         return z3.If(z3.Extract(bit, bit, index) == 1, rec(hi, bit - 1), a)
 
     return rec(0, nbits - 1)
-
-
-_TOL = Fraction(1, 10**12)
 
 
 class Table(Harness):
@@ -1069,14 +1210,9 @@ class Ctor(Harness):
                'non-integer M')
 
     def configs(self, tier):
-        return [dict(part='lemma')] + [
-            dict(part='sweep', lo=lo, hi=min(lo + 819, 4100))
-            for lo in range(2, 4101, 820)]
+        return [dict(lo=2, hi=4100)]
 
     def sym(self, ctx, cfg):
-        if cfg['part'] != 'lemma':
-            ctx.prove('sweep-is-concrete', True)
-            return
         conv = repo_module(CV)
         M = ctx.bv64('M')
         p = ctx.bv64('p')      # the power of two just below M: p < M < 2p
@@ -1097,8 +1233,6 @@ class Ctor(Harness):
                                 'constructed'))
 
     def concrete(self, cfg, rng):
-        if cfg['part'] != 'sweep':
-            return 0
         fu = repo_module(FU)
         cnt = 0
         for M in range(cfg['lo'], cfg['hi'] + 1):
@@ -1121,7 +1255,8 @@ class Ctor(Harness):
         return cnt
 
 
-HARNESSES = [Detect(), DetectAnyTable(), RoundTrip(), Table(), QamExact(),
+HARNESSES = [Detect(), DetectAnyTable(), DetectRotated(),
+             PskEnergyAnyOffset(), RoundTrip(), Table(), QamExact(),
              Reject(), RejectBpsk(), Ctor()]
 
 MANIFEST = dict(
